@@ -294,7 +294,7 @@ inductive Entry
 /-- the reference behind `Name::Wide` (`none` for an id) -/
 def DirEntry.nameRef (r : Resources) (e : DirEntry) : Out (Option Ref) :=
   if e.name ≥ 0x80000000 then                       -- Name & 0x80000000 != 0
-    match sliceWs r (e.name - 0x80000000) with      -- Name & !0x80000000
+    match sliceWs r (e.name % 0x80000000) with      -- Name & !0x80000000 (Name < 2^32)
     | .ok w => .ok (some w)
     | .err e => .err e
     | .panic s => .panic s
@@ -327,7 +327,7 @@ def dataTryFrom (r : Resources) (off : Nat) : Out DataEntry :=
 -- src: mod.rs:DirectoryEntry::entry
 def DirEntry.entry (r : Resources) (e : DirEntry) : Out Entry :=
   if e.isDir then
-    match dirTryFrom r (e.offset - 0x80000000) with     -- Offset & !0x80000000
+    match dirTryFrom r (e.offset % 0x80000000) with     -- Offset & !0x80000000 (Offset < 2^32)
     | .ok d => .ok (.dir d)
     | .err e => .err e
     | .panic s => .panic s
